@@ -891,6 +891,9 @@ class SV:
     def __pos__(self):
         return self
 
+    def __abs__(self):
+        return self
+
     # ---- comparisons
     def eql(self, o):
         a = self.bits
